@@ -30,7 +30,7 @@ type World struct {
 	Externs   map[string]*Contract // key: full function name as printed by ssa (fn.String())
 	SpecFuncs map[string]*SpecFunc
 	Axioms    []*Axiom
-	TypeInvs  map[string]*TypeInv       // key: types.Type string of the struct's named type
+	TypeInvs  map[string][]*TypeInv     // key: types.Type string of the struct's named type
 	IfaceMs   map[string][]*IfaceMethod // by method name
 	SpecFiles []*SpecFile
 	Warnings  []string
@@ -64,7 +64,7 @@ func LoadWorld(repoDir, verifDir string) (*World, error) {
 	w := &World{RepoDir: repoDir, VerifDir: verifDir,
 		Pkgs: map[string]*ssa.Package{}, ByName: map[string][]*ssa.Package{}, TPkgs: map[string]*packages.Package{},
 		Contracts: map[*ssa.Function]*Contract{}, Externs: map[string]*Contract{}, SpecFuncs: map[string]*SpecFunc{},
-		TypeInvs: map[string]*TypeInv{}, IfaceMs: map[string][]*IfaceMethod{},
+		TypeInvs: map[string][]*TypeInv{}, IfaceMs: map[string][]*IfaceMethod{},
 		typeIDs: map[string]int{}, typeByID: map[int]types.Type{}, dtDecls: map[string]*dtDecl{}, structOf: map[string]*types.Struct{},
 		ContractFileOf: map[string]string{}, modsCache: map[*ssa.Function]map[string]bool{},
 		heapSorts: map[string]*Sort{}, sliceElems: map[string]*Sort{},
@@ -217,7 +217,7 @@ func (w *World) LoadSpecs() error {
 				w.warnf("%s:%d: type invariant: %v", ti.File, ti.Line, err)
 				continue
 			}
-			w.TypeInvs[ty.G.String()] = ti
+			w.TypeInvs[ty.G.String()] = append(w.TypeInvs[ty.G.String()], ti)
 		}
 		for _, c := range sf.Contracts {
 			switch c.Kind {
